@@ -137,12 +137,13 @@ func (w *World) clientAddr(alias string) string {
 }
 
 func (w *World) aliasOf(sock engine.Socket) string {
+	addr := sock.RemoteAddress() // never call instrumented code while holding w.mu
 	w.mu.Lock()
 	defer w.mu.Unlock()
-	if a, ok := w.byAddr[sock.RemoteAddress()]; ok {
+	if a, ok := w.byAddr[addr]; ok {
 		return a
 	}
-	return "?" + sock.RemoteAddress()
+	return "?" + addr
 }
 
 // rec appends to the history and returns the event's seq.
@@ -297,10 +298,11 @@ func (w *World) startServer(o *OptSpec, att *AttachSpec) {
 	srv.On("connection", func(a ...any) {
 		sock := a[0].(engine.Socket)
 		alias := w.aliasOf(sock)
+		sid := sock.Id()
 		w.mu.Lock()
 		w.Socks[alias] = sock
-		w.SockIDs[alias] = sock.Id()
-		w.AllIDs = append(w.AllIDs, sock.Id())
+		w.SockIDs[alias] = sid
+		w.AllIDs = append(w.AllIDs, sid)
 		w.mu.Unlock()
 		w.recx(Ev{Sess: alias, Kind: "connection", S: sock.Id(), St: sockState(sock), N: int64(sock.Protocol())})
 		w.attachSocket(alias, sock)
